@@ -2,9 +2,20 @@
 
 package main
 
-import "github.com/smarthome-go/homescript/v3/homescript/runtime"
+import (
+	"github.com/smarthome-go/homescript/v3/homescript/runtime"
+	"github.com/smarthome-go/homescript/v3/homescript/vsched"
+)
 
 // controlled: VM runs execute under the cooperative scheduler of the vsched shim.
 const controlled = true
 
 func coresLockState(vm *runtime.VM) string { return vm.Cores.Lock.LockState() }
+
+// newHostLock: a lock of the modelled host; taking it is a scheduling point.
+func newHostLock() interface {
+	Lock()
+	Unlock()
+} {
+	return &vsched.Mutex{}
+}
